@@ -171,6 +171,8 @@ class Interp:
             b = self.read(fr, p[1])
             if self._transparent(p):
                 return b
+            if isinstance(b, Ref):
+                b = deref(b)        # (a box pointer copy standing for its pointee)
             if isinstance(b, (Adt, Closure)):
                 try:
                     return b.fields[p[2]]
@@ -224,6 +226,8 @@ class Interp:
                     return b, 'val'
                 return self.ref(fr, p[1])
             b = self.read_or_init(fr, p[1], p)
+            if isinstance(b, Ref):
+                b = deref(b)
             if isinstance(b, (Adt, Closure)):
                 return b.fields, p[2]
             if isinstance(b, list):
@@ -388,6 +392,13 @@ class Interp:
         k = rv[0]
         if k == 'use':
             return self.operand(ctx, fr, rv[1])
+        if k == 'boxptr':
+            # only a Box reached through a reference (`b: &mut Box<T>`) can be written through (`**b = v`); a Box owned by a
+            # local or a field keeps value semantics (its pointee is the value itself)
+            if rv[1][0] == 'deref' and rv[1][1][0] == 'local' and isinstance(fr.env.get(rv[1][1][1]), Ref):
+                c, key = self.ref(fr, rv[1])
+                return Ref(c, key)
+            return self.operand(ctx, fr, ('copy', rv[1]))
         if k == 'ref' or k == 'rawptr':
             p = rv[1]
             # &(*_x) where _x holds a Ref: re-borrow = same reference
